@@ -78,6 +78,11 @@ def gen_plan(wl, fr, idx):
     plan['f_range_list'] = wl.random() < 0.2
     plan['fs_float'] = wl.random() < 0.2
     plan['from_thread'] = wl.random() < 0.15
+    if wl.random() < 0.2:
+        # an earlier group call in the same process (on the same object) that FAILED: a flat row among
+        # `extra` more rows, or an unknown progress-bar name; the judged call comes afterwards
+        plan['prefail'] = {'kind': wl.choice(('flat_row', 'flat_row', 'bad_progress')), 'extra': wl.randint(0, 3),
+                           'flat_at': wl.randrange(R + 3), 'n_jobs': wl.choice((1, 2, 3))}
     plan['progress'] = wl.choice((None, None, 'tqdm', 'tqdm.notebook'))
     plan['tqdm'] = wl.choice(('absent', 'stub'))
     if wl.random() < 0.05 and R >= 2:
@@ -151,6 +156,26 @@ def _variant(arr, v):
     return arr
 
 
+def _failing_call(plan, sigs, fs, f_range, call, res):
+    """The earlier call that fails (nothing is demanded of it): more rows than the judged call has,
+    one of them flat, or a progress-bar name the library rejects."""
+    pf = plan['prefail']
+    extra = [sigs[k % len(sigs)][::-1] * (1.5 + k) for k in range(pf['extra'])]
+    big = np.array(list(sigs) + extra)
+    progress = None
+    if pf['kind'] == 'flat_row':
+        big[pf['flat_at'] % len(big)] = 0.0
+    else:
+        progress = 'bar'
+    try:
+        call(big, pf['n_jobs'], progress)
+    except Exception:
+        res.stats['probe.earlier_call_failed'] += 1
+        res.stats['fault.earlier_call_failed'] += 1
+    else:
+        res.stats['earlier_call_did_not_fail'] += 1
+
+
 def execute(plan, tape):
     res = Result()
     band = plan['band']
@@ -207,6 +232,10 @@ def execute(plan, tape):
                         except Exception:
                             pass        # nothing is demanded of the earlier call
                         _restore(kw, final)
+                    if plan.get('prefail'):
+                        kwf = None if isinstance(kw, list) else kw
+                        _failing_call(plan, sigs, fs, f_range, lambda big, nj, pg: compute_features_2d(
+                            big, fs, f_range, kwf, 0, plan['return_samples'], nj, pg), res)
                     if plan.get('positional'):
                         out = compute_features_2d(sigs, fs, f_range, kw, 0, plan['return_samples'],
                                                   plan['n_jobs'], plan['progress'])
@@ -228,6 +257,9 @@ def execute(plan, tape):
                     if plan.get('prefit'):
                         # the object was used before: an earlier fit on other data of the same shape
                         bg.fit(-sigs[::-1] * 0.5, fs, f_range, axis=0, n_jobs=1, progress=None)
+                    if plan.get('prefail'):
+                        _failing_call(plan, sigs, fs, f_range, lambda big, nj, pg: bg.fit(
+                            big, fs, f_range, axis=0, n_jobs=nj, progress=pg), res)
                     if plan.get('positional'):
                         bg.fit(sigs, fs, f_range, 0, plan['n_jobs'], plan['progress'])
                     else:
@@ -396,7 +428,7 @@ def shrink(plan):
     for key, val in (('n_jobs', 1), ('n_jobs', 2), ('progress', None), ('tqdm', 'absent'),
                      ('return_samples', True), ('prefit', False), ('alias_equal', False),
                      ('array_variant', None), ('positional', False), ('f_range_list', False),
-                     ('fs_float', False), ('from_thread', False), ('precall', False)):
+                     ('fs_float', False), ('from_thread', False), ('precall', False), ('prefail', None)):
         if key in plan and plan[key] != val:
             p = copy.deepcopy(plan)
             p[key] = val
